@@ -224,6 +224,32 @@ def cov_expect(d, swap=False):
     return E
 
 
+def judge_cov_multiset(prop, pts, counts, kv, res, case, variant, context=''):
+    """Like judge_cov for the multiset in which the pair pts[i] occurs counts[i] times (huge counts by self-merging)."""
+    res.count('evaluations')
+    n = sum(counts)
+    if val(kv['len']) != n:
+        res.violation(prop, 'Covariance.len:wrong', 'Covariance: len()=%r but %d pairs were absorbed %s' % (val(kv['len']), n, context), case, variant)
+        return False
+
+    def marg(i):
+        agg = {}
+        for p, c in zip(pts, counts):
+            agg[p[i]] = agg.get(p[i], 0) + c
+        v = sorted(agg)
+        return ex.moments_weighted(v, [agg[x] for x in v], 2, need_abs=False)
+    fx = [Fraction(p[0]) for p in pts]
+    fy = [Fraction(p[1]) for p in pts]
+    mx_ = sum(c * x for c, x in zip(counts, fx)) / n
+    my_ = sum(c * y for c, y in zip(counts, fy)) / n
+    d = {'n': n, 'mx': marg(0), 'my': marg(1), 'cov': sum(c * (x - mx_) * (y - my_) for c, x, y in zip(counts, fx, fy)) / n}
+    E = cov_expect(d)
+    if not E:
+        res.count('skipped_zero_spread_or_kappa')
+        return False
+    return _judge_table(prop, 'Covariance', E, kv, res, case, variant, '(n=%d) %s' % (n, context))
+
+
 def judge_cov(prop, oracle, lo, hi, kv, res, case, variant, swap=False, context=''):
     d = oracle.span(lo, hi)
     n = d['n']
